@@ -277,7 +277,9 @@ class Fock(BaseState):
             )
         if isinstance(self.index, tuple) or isinstance(self.index, list):
             assert isinstance(self.composite_envelope, CompositeEnvelope)
-            return self.composite_envelope.measure(self)
+            return self.composite_envelope.measure(
+                self, separate_measurement=separate_measurement, destructive=destructive
+            )
 
         if self.index is not None:
             assert self.envelope is not None, "Envelope should not be None"
@@ -311,8 +313,9 @@ class Fock(BaseState):
 
         if self.envelope is not None and not separate_measurement:
             if not self.envelope.polarization.measured:
+                # The partner is measured on its own (this state is already done)
                 out = self.envelope.polarization.measure(
-                    separate_measurement=separate_measurement, destructive=destructive
+                    separate_measurement=True, destructive=destructive
                 )
                 assert isinstance(out, dict)
                 for m_key, m_value in out.items():
